@@ -75,6 +75,9 @@ def message_pool(remote_as, r=None):
         ('update_aspath4', frame(2, update_body(attrs=bytes.fromhex('40010100' '4002060201' '0000fde9' '4003040a000001')))),
         ('update_aspath2', frame(2, update_body(attrs=bytes.fromhex('40010100' '4002040201' 'fde9' '4003040a000001')))),
         ('update_eor', frame(2, update_body(nlri=b'', attrs=b''))),
+        # MP_REACH_NLRI / MP_UNREACH_NLRI for an address family the agent has no name for (AFI 1, SAFI 132)
+        ('update_mp_unknown_family', frame(2, update_body(nlri=b'', attrs=bytes.fromhex('40010100' '400200' '800e0b' '000184' '04' '0a000001' '00' '0102')))),
+        ('update_mpunreach_unknown_family', frame(2, update_body(nlri=b'', attrs=bytes.fromhex('800f05' '000184' '0102')))),
         # the largest message the RFC allows (4096 octets): a well-formed UPDATE padded by an unknown optional transitive
         # attribute with extended length, and a malformed one of the same size
         ('update_max4096', frame(2, update_body(nlri=b'', attrs=bytes.fromhex('40010100' '400200' '4003040a000001')
